@@ -33,7 +33,7 @@ def g1_whitespace(ctx, g, prefix):
 
 
 def _comment_alts(g):
-    return [flatten(a, "seq") for a in g.choices_of(g.expr("COMMENT"))]
+    return [flatten(g.inline(a), "seq") for a in g.choices_of(g.expr("COMMENT"))]
 
 
 def g2_comment(ctx, g, prefix):
@@ -186,12 +186,16 @@ def g10_target_visible(ctx, g, prefix):
         ctx.check(g.ty("target_arg") != "silent", prefix, "G10|target-visible",
                   "G10: target_arg is a visible pair, so the structured-new anchor can be placed after it", W)
     ta = g.seq_of("target_arg")
-    mid_ok = False
-    if len(ta) == 3 and ta[1]["k"] == "ident" and ta[1]["v"] in g.rules:
-        lit = g.seq_of(ta[1]["v"])
-        mid_ok = bool(lit) and lit[0] == {"k": "str", "v": '"'} and not g.nullable(g.expr(ta[1]["v"]))
-    ctx.check(len(ta) == 3 and ta[0] == {"k": "str", "v": "target:"} and ta[2] == {"k": "str", "v": ","} and mid_ok, prefix,
-              "G10|target-shape", "G10: target_arg = `target:` <string literal> `,` and nothing else (a target the grammar cannot delimit exactly must not be matched at all)", W)
+    mid = ta[1:-1]
+    firsts = set()
+    for m in mid:
+        firsts |= g.first(m)
+        if not g.nullable(m):
+            break
+    mid_ok = bool(mid) and firsts == {("chr", '"')} and not all(g.nullable(m) for m in mid)
+    ctx.check(len(ta) >= 3 and ta[0] == {"k": "str", "v": "target:"} and ta[-1] == {"k": "str", "v": ","} and mid_ok, prefix,
+              "G10|target-shape", "G10: target_arg = `target:` <string literal> `,` and nothing else — the value can only start with a double quote "
+              "(a target the grammar cannot delimit exactly must not be matched at all); FIRST = %s" % sorted(firsts), W)
 
 
 def g11_no_recursion(ctx, g, prefix):
